@@ -489,6 +489,13 @@ type baseStructFb struct{ baseStruct }
 
 func (n *baseStructFb) ExecFallback(p any, err error) (any, error) { return n.l.fallback(p, err) }
 
+// baseOverride embeds a *flyt.BaseNode that was left UNCONFIGURED and defines the retry getters itself: the
+// RetryableNode interface — not the embedded BaseNode's fields — is what the framework must consult
+type baseOverride struct{ baseStruct }
+
+func (n *baseOverride) GetMaxRetries() int     { return n.l.cfg.Budget }
+func (n *baseOverride) GetWait() time.Duration { return time.Duration(n.l.cfg.Wait) * time.Millisecond }
+
 // valueNode: a Node implementation used BY VALUE (not through a pointer). valueNode{0} is the zero value of its
 // type — a legal node like any other. A value carries no pointer to its state, so the state is looked up in the
 // scenario that currently owns `valueScenario` (scenarios with value nodes run one at a time).
@@ -529,6 +536,8 @@ func (e *runtimeEnv) buildLeaf(id int, cfg *LeafCfg) flyt.Node {
 		return &plainRetryFb{plainRetry{plainNode{l}}}
 	case cfg.Fb == "custom":
 		return &baseStructFb{baseStruct{flyt.NewBaseNode(flyt.WithMaxRetries(cfg.Budget), flyt.WithWait(wait)), l}}
+	case cfg.Impl == "override": // pass-through fallback of an unconfigured BaseNode, getters defined by the user type
+		return &baseOverride{baseStruct{flyt.NewBaseNode(), l}}
 	default: // pass
 		return &baseStruct{flyt.NewBaseNode(flyt.WithMaxRetries(cfg.Budget), flyt.WithWait(wait)), l}
 	}
